@@ -366,6 +366,10 @@ def check_property(pid, tier, seed):
         exit_code = 1
         for u in undecided:
             lines.append(f"UNDECIDED property={pid} contract={u['contract']} reason={u['reason']}")
+        # obligations that were discharged on the unchanged tree and are now refuted / unknown, but whose kind (loop invariant,
+        # hint) does not decide a verdict on its own: listed next to the violation so the failed proof step is visible
+        for r in undecided_obs[:8]:
+            lines.append(f"UNDECIDED property={pid} obligation={r.name} reason=solver:{r.status} attempts={r.attempts}")
 
     # ---- evidence -----------------------------------------------------------------------------
     from vcheck.levels import LEVEL
